@@ -364,7 +364,7 @@ def draw_periods(rng, dt):
 
 def draw_case(rng):
     n = int(rng.choice([2, 3, 4, 5, 8])) if rng.random() < 0.12 else int(rng.integers(9, 401))
-    x, cls = gen.record(rng, n)
+    x, cls = gen.record(rng, n, wide=True)
     r = rng.random()
     if r < 0.15:
         dt, T6 = DYADIC[int(rng.integers(len(DYADIC)))]
@@ -381,6 +381,8 @@ def draw_case(rng):
             per = np.concatenate([[0], per]).astype(np.int64)
     else:
         dt = gen.dt(rng)
+        if rng.random() < 0.1:      # extreme time bases
+            dt = float(10 ** (rng.uniform(-9, -3) if rng.random() < 0.6 else rng.uniform(0, 3)))
         per = draw_periods(rng, dt)
     xi = float(XIS[int(rng.integers(len(XIS)))]) if rng.random() < 0.7 else float(rng.uniform(0, 1))
     return x, cls, dt, per, xi
@@ -402,7 +404,14 @@ def run_shard(ctx):
         x, cls, dt, per, xi = draw_case(rng)
         kind = int(rng.choice(5, p=[0.3, 0.2, 0.3, 0.1, 0.1]))
         cont, ck = gen.container(rng, x, kinds=('f64', 'f64', 'f64', 'f32', 'i64', 'list'))
+        r = rng.random()
+        if r < 0.05:
+            cont, ck = gen.narrow_int(rng, len(x))
+        elif r < 0.12:
+            cont, ck = gen.view_form(rng, np.array(x, dtype=float))
         pc, pk = period_container(rng, per)
+        xi_arg = 0 if (xi == 0.0 and rng.random() < 0.5) else xi
+        dig0 = (core.digest(np.asarray(cont)), core.digest(np.asarray(pc)))
         nontriv = bool(np.any(np.asarray(cont, dtype=float) != 0))
         ctx.case(core.digest(np.asarray(cont, dtype=float), dt, np.asarray(per, dtype=float), xi, kind, pk), nontrivial=nontriv,
                  cls='%s/%s/%s' % (['pseudo', 'true', 'object', 'uke', 'input-energy'][kind], cls, pk),
@@ -410,9 +419,15 @@ def run_shard(ctx):
                          'T/dt': np.asarray(per, dtype=float) / dt, 'xi': xi, 'periods_container': pk})
         try:
             if kind == 0:
-                eqsig.sdof.pseudo_response_spectra(cont, dt, pc, xi)
+                if rng.random() < 0.5:
+                    eqsig.sdof.pseudo_response_spectra(cont, dt, pc, xi_arg)
+                else:
+                    eqsig.sdof.pseudo_response_spectra(motion=cont, dt=dt, periods=pc, xi=xi_arg)
             elif kind == 1:
-                eqsig.sdof.true_response_spectra(cont, dt, pc, xi)
+                if rng.random() < 0.5:
+                    eqsig.sdof.true_response_spectra(cont, dt, pc, xi_arg)
+                else:
+                    eqsig.sdof.true_response_spectra(motion=cont, dt=dt, periods=pc, xi=xi_arg)
             elif kind == 2:
                 drive_object(ctx, eqsig, rng, cont, dt, per, xi)
             else:
@@ -422,13 +437,13 @@ def run_shard(ctx):
                     if use_default:
                         eqsig.sdof.calc_resp_uke_spectrum(sig)
                     else:
-                        eqsig.sdof.calc_resp_uke_spectrum(sig, periods=pc, xi=xi)
+                        eqsig.sdof.calc_resp_uke_spectrum(sig, periods=pc, xi=xi_arg) if rng.random() < 0.5 else eqsig.sdof.calc_resp_uke_spectrum(sig, pc, xi_arg)
                 else:
                     ser = bool(rng.random() < 0.5)
                     if use_default:
                         eqsig.sdof.calc_input_energy_spectrum(sig, series=ser)
                     else:
-                        eqsig.sdof.calc_input_energy_spectrum(sig, periods=np.asarray(per, dtype=float), xi=xi, series=ser)
+                        eqsig.sdof.calc_input_energy_spectrum(sig, periods=np.asarray(per, dtype=float), xi=xi_arg, series=ser)
                 if c % 25 == 0:
                     try:
                         with attach.paused():
@@ -440,6 +455,9 @@ def run_shard(ctx):
             ctx.exception('spectra.finite+nonneg+shape',
                           _wit(fn=['pseudo', 'true', 'object', 'uke', 'input_energy'][kind], motion=np.asarray(cont), motion_container=type(cont).__name__,
                                dt=dt, periods=np.asarray(per), periods_container=pk, xi=xi), e)
+        ctx.check((core.digest(np.asarray(cont)), core.digest(np.asarray(pc))) == dig0, 'arguments-unchanged',
+                  lambda: _wit(fn='purity', motion=np.asarray(cont), dt=dt, periods=np.asarray(per), xi=xi),
+                  'record or period container modified by the call(s)')
     ctx.note('monitored_calls', dict(attach.CALLS))
 
 
